@@ -501,3 +501,215 @@ B('h_stats_record_only_on_error_path', ['C19'], 'R19.a',
 B('h_stats_record_twice_on_error_path', ['C19'], 'R19.a',
   (STATS, "            resp_mime_type = getattr(e, 'content_type', '').partition(';')[0]\n            raise\n",
           "            resp_mime_type = getattr(e, 'content_type', '').partition(';')[0]\n            self.route_hits[_route][resp_status].add(Hit(start_time, request.path, _route.pattern, resp_status, 0.0, resp_mime_type))\n            raise\n"))
+
+# ------------------------------------------------------------------------------------------------ C15: R15.f body as a sequence only when not streamed
+_CC_BODY = '''        if hasattr(resp, 'cache_control'):
+            for attr in self.cache_attrs:
+                cache_val = getattr(self, attr, None)
+                if cache_val:
+                    setattr(resp.cache_control, attr, cache_val)
+            if self.use_etags and not resp.is_streamed:
+                # TODO: do streamed responses too?
+                resp.add_etag()
+                resp.make_conditional(request)
+        return resp'''
+_CC_ETAG_IF = "            if self.use_etags and not resp.is_streamed:\n"
+_CC_GUARDS = '''        if not hasattr(resp, 'cache_control'):
+            return resp
+        for attr in self.cache_attrs:
+            cache_val = getattr(self, attr, None)
+            if cache_val:
+                setattr(resp.cache_control, attr, cache_val)
+%s
+        resp.add_etag()
+        resp.make_conditional(request)
+        return resp'''
+# guard clauses: the negation of ``a and not s`` is ``not a or s`` -- with ``and`` the guard lets streamed responses through to add_etag()
+B('h_cache_guard_demorgan_and', ['C15'], 'R15.f', (CC, _CC_BODY, _CC_GUARDS % '        if not self.use_etags and resp.is_streamed:\n            return resp'))
+B('h_cache_etag_streamed_test_dropped', ['C15'], 'R15.f', (CC, _CC_ETAG_IF, "            if self.use_etags:\n"))
+B('h_cache_etag_streamed_test_inverted', ['C15'], 'R15.f', (CC, _CC_ETAG_IF, "            if self.use_etags and resp.is_streamed:\n"))
+B('h_cache_etag_or_instead_of_and', ['C15'], 'R15.f', (CC, _CC_ETAG_IF, "            if self.use_etags or not resp.is_streamed:\n"))
+B('h_cache_guard_named_flag_wrong', ['C15'], 'R15.f',
+  (CC, _CC_BODY, _CC_GUARDS % '        streamed = resp.is_streamed\n        skip = not (self.use_etags or not streamed)\n        if skip:\n            return resp'))
+# gzip: the body is read (buffered) before the streamed test; the replacement itself still sits behind the test (R15.d is satisfied)
+B('h_gz_data_read_before_streamed_test', ['C15'], 'R15.f',
+  (GZ, "        if resp.is_streamed:\n            return resp  # TODO\n\n        comp_content = gzip_bytes(resp.data, self.compress_level)\n",
+       "        comp_content = gzip_bytes(resp.data, self.compress_level)\n        if resp.is_streamed:\n            return resp  # TODO\n"))
+B('h_gz_data_read_under_streamed', ['C15'], 'R15.f',
+  (GZ, "        if resp.is_streamed:\n            return resp  # TODO\n", "        if resp.is_streamed and len(resp.get_data()) > 1024:\n            return resp  # TODO\n"))
+T('h_cache_guard_not_paren', ['C15'], (CC, _CC_BODY, _CC_GUARDS % '        if not (self.use_etags and not resp.is_streamed):\n            return resp'))
+T('h_cache_guard_two_steps', ['C15'],
+  (CC, _CC_BODY, _CC_GUARDS % '        if not self.use_etags:\n            return resp\n        if resp.is_streamed:\n            return resp'))
+T('h_cache_guard_named_flag', ['C15'],
+  (CC, _CC_BODY, _CC_GUARDS % '        streamed = resp.is_streamed\n        wants_etag = self.use_etags and not streamed\n        if not wants_etag:\n            return resp'))
+T('h_cache_nested_ifs', ['C15'],
+  (CC, _CC_ETAG_IF + "                # TODO: do streamed responses too?\n                resp.add_etag()\n                resp.make_conditional(request)\n",
+       "            if self.use_etags:\n                if not resp.is_streamed:\n                    resp.add_etag()\n                    resp.make_conditional(request)\n"))
+T('h_cache_streamed_first', ['C15'], (CC, _CC_ETAG_IF, "            if not resp.is_streamed and self.use_etags:\n"))
+T('h_gz_streamed_or_empty', ['C15'],
+  (GZ, "        if resp.is_streamed:\n            return resp  # TODO\n", "        if resp.is_streamed or not resp.get_data():\n            return resp  # TODO\n"))
+
+# ------------------------------------------------------------------------------------------------ C15: R15.g own exceptions only under the trigger
+_PF_HEAD = '''        if not request.args.get(self.get_param_name):
+            return next()
+        sort_param = request.args.get(self.sort_param_name, 'time')
+        if sort_param not in _sort_keys:
+            raise KeyError('%s is not a supported sort_key. choose from: %r'
+                           % (sort_param, _sort_keys))
+'''
+B('h_profile_validates_before_trigger', ['C15'], 'R15.g',
+  (PF, _PF_HEAD, '''        args = request.args
+        do_profile = args.get(self.get_param_name)
+        sort_param = args.get(self.sort_param_name, 'time')
+        if sort_param not in _sort_keys:
+            raise KeyError('%s is not a supported sort_key. choose from: %r'
+                           % (sort_param, _sort_keys))
+        if not do_profile:
+            return next()
+'''))
+B('h_profile_validates_inside_passthrough', ['C15'], 'R15.g',
+  (PF, _PF_HEAD, '''        sort_param = request.args.get(self.sort_param_name, 'time')
+        if not request.args.get(self.get_param_name):
+            if sort_param not in _sort_keys:
+                raise KeyError('%s is not a supported sort_key' % sort_param)
+            return next()
+        if sort_param not in _sort_keys:
+            raise KeyError('%s is not a supported sort_key. choose from: %r'
+                           % (sort_param, _sort_keys))
+'''))
+B('h_profile_sort_lookup_before_trigger', ['C15'], 'R15.g',
+  (PF, _PF_HEAD, '''        sort_param = request.args[self.sort_param_name]
+        if not request.args.get(self.get_param_name):
+            return next()
+        if sort_param not in _sort_keys:
+            raise KeyError('%s is not a supported sort_key. choose from: %r'
+                           % (sort_param, _sort_keys))
+'''))
+B('h_gz_rejects_request', ['C15'], 'R15.g',
+  (GZ, "        resp = next()\n        if not hasattr(resp, 'content_encoding'):",
+       "        if request.headers.get('Accept-Encoding', '').count(',') > 16:\n            raise ValueError('too many codings')\n        resp = next()\n        if not hasattr(resp, 'content_encoding'):"))
+B('h_cache_refuses_streams', ['C15'], 'R15.g',
+  (CC, _CC_ETAG_IF, "            if self.use_etags and resp.is_streamed:\n                raise RuntimeError('cannot compute an ETag for a streamed response')\n" + _CC_ETAG_IF))
+T('h_profile_reads_first_validates_after', ['C15'],
+  (PF, _PF_HEAD, '''        args = request.args
+        do_profile = args.get(self.get_param_name)
+        sort_param = args.get(self.sort_param_name, 'time')
+        if not do_profile:
+            return next()
+        if sort_param not in _sort_keys:
+            raise KeyError('%s is not a supported sort_key. choose from: %r'
+                           % (sort_param, _sort_keys))
+'''))
+T('h_profile_named_validity_else_raise', ['C15'],
+  (PF, _PF_HEAD, '''        if not request.args.get(self.get_param_name):
+            return next()
+        sort_param = request.args.get(self.sort_param_name, 'time')
+        sort_ok = sort_param in _sort_keys
+        if sort_ok:
+            pass
+        else:
+            raise KeyError('%s is not a supported sort_key. choose from: %r'
+                           % (sort_param, _sort_keys))
+'''))
+T('h_profile_trigger_if_else', ['C15'],
+  (PF, '        if not request.args.get(self.get_param_name):\n            return next()\n',
+       '        triggered = bool(request.args.get(self.get_param_name))\n        if triggered:\n            pass\n        else:\n            return next()\n'))
+T('h_profile_sort_lookup_after_test', ['C15'],
+  (PF, "        sort_param = request.args.get(self.sort_param_name, 'time')\n",
+       "        if self.sort_param_name in request.args:\n            sort_param = request.args[self.sort_param_name]\n        else:\n            sort_param = 'time'\n"))
+T('h_profile_positive_nesting', ['C15'],
+  (PF, _PF_HEAD, '''        if request.args.get(self.get_param_name):
+            sort_param = request.args.get(self.sort_param_name, 'time')
+            if sort_param not in _sort_keys:
+                raise KeyError('%s is not a supported sort_key. choose from: %r'
+                               % (sort_param, _sort_keys))
+        else:
+            return next()
+'''))
+
+# ------------------------------------------------------------------------------------------------ C19: R19.d the instance the report reads is the instance the routes run
+_MERGE_LOOP = '''    for mw in old:
+        if mw.unique and mw in merged:
+            if mw.reorderable:
+                continue
+            else:
+                raise ValueError('multiple inclusion of unique '
+                                 'middleware %r' % mw.name)
+        merged.append(mw)
+    return merged
+'''
+_ST_LOOKUP = '''    try:
+        stats_mw = [mw for mw in _application.middlewares
+                    if isinstance(mw, StatsMiddleware)][0]
+    except IndexError:
+        raise NotImplemented("StatsMiddleware not installed on app %r" % _application)
+    return stats_mw
+'''
+_RT_MERGE = "        self.middlewares = tuple(merge_middlewares(getattr(route, 'middlewares', []), app_mws))\n"
+B('h_merge_route_instance_takes_slot', ['C19'], 'R19.d',
+  (C, "            if mw.reorderable:\n                continue\n", "            if mw.reorderable:\n                merged[merged.index(mw)] = mw\n                continue\n"))
+B('h_merge_route_instance_moved_last', ['C19'], 'R19.d',
+  (C, "            if mw.reorderable:\n                continue\n", "            if mw.reorderable:\n                merged.remove(mw)\n                merged.append(mw)\n                continue\n"))
+B('h_merge_filters_app_level', ['C19'], 'R19.d',
+  (C, "    merged = list(new)\n" + _MERGE_LOOP, '''    merged = [mw for mw in new if not (mw.unique and mw.reorderable and mw in old)]
+    for mw in old:
+        if mw.unique and mw in merged:
+            raise ValueError('multiple inclusion of unique '
+                             'middleware %r' % mw.name)
+        merged.append(mw)
+    return merged
+'''))
+B('h_route_merge_levels_swapped', ['C19'], 'R19.d',
+  (R, _RT_MERGE, "        self.middlewares = tuple(merge_middlewares(app_mws, getattr(route, 'middlewares', [])))\n"))
+B('h_stats_lookup_falls_back_to_fresh', ['C19'], 'R19.d',
+  (STATS, _ST_LOOKUP, '''    try:
+        stats_mw = [mw for mw in _application.middlewares
+                    if isinstance(mw, StatsMiddleware)][0]
+    except IndexError:
+        stats_mw = StatsMiddleware()
+    return stats_mw
+'''))
+B('h_stats_lookup_snapshot_copy', ['C19'], 'R19.d',
+  (STATS, _ST_LOOKUP, '''    try:
+        stats_mw = [copy.copy(mw) for mw in _application.middlewares
+                    if isinstance(mw, StatsMiddleware)][0]
+    except IndexError:
+        raise NotImplemented("StatsMiddleware not installed on app %r" % _application)
+    return stats_mw
+'''), (STATS, 'import datetime\n', 'import datetime\nimport copy\n'))
+T('h_merge_named_duplicate_test', ['C19'],
+  (C, _MERGE_LOOP, '''    for mw in old:
+        already_merged = mw.unique and mw in merged
+        if not already_merged:
+            merged.append(mw)
+            continue
+        if not mw.reorderable:
+            raise ValueError('multiple inclusion of unique '
+                             'middleware %r' % mw.name)
+    return merged
+'''))
+T('h_merge_augmented_add', ['C19'], (C, "        merged.append(mw)\n    return merged\n", "        merged += [mw]\n    return merged\n"))
+T('h_merge_slice_copy', ['C19'], (C, "    merged = list(new)\n", "    outer = list(new)\n    merged = outer[:]\n"))
+T('h_route_merge_named_result', ['C19'],
+  (R, _RT_MERGE, "        route_mws = getattr(route, 'middlewares', [])\n        merged_mws = merge_middlewares(old=route_mws, new=app_mws)\n        self.middlewares = tuple(merged_mws)\n"))
+T('h_stats_lookup_named_list', ['C19'],
+  (STATS, _ST_LOOKUP, '''    try:
+        installed = [mw for mw in _application.middlewares
+                     if isinstance(mw, StatsMiddleware)]
+        return installed[0]
+    except IndexError:
+        raise NotImplemented("StatsMiddleware not installed on app %r" % _application)
+'''))
+T('h_stats_lookup_next', ['C19'],
+  (STATS, _ST_LOOKUP, '''    try:
+        stats_mw = next(mw for mw in _application.middlewares if isinstance(mw, StatsMiddleware))
+    except StopIteration:
+        raise NotImplemented("StatsMiddleware not installed on app %r" % _application)
+    return stats_mw
+'''))
+T('h_stats_lookup_loop', ['C19'],
+  (STATS, _ST_LOOKUP, '''    for mw in _application.middlewares:
+        if isinstance(mw, StatsMiddleware):
+            return mw
+    raise NotImplemented("StatsMiddleware not installed on app %r" % _application)
+'''))
